@@ -234,7 +234,12 @@ func (w *world) prestate(parent *chain.BlockSummary, signer thor.Address, ts uin
 	if err != nil {
 		return nil, err
 	}
-	cands, err := authority.Candidates(staker.TransitionPeriodBalanceCheck(fc, num, endorsement), mbp)
+	check := staker.TransitionPeriodBalanceCheck(fc, num, endorsement)
+	if w.asIfEndorsed {
+		// the view of a validator that did not notice that an endorsement was withdrawn
+		check = func(master, endorser thor.Address) (bool, error) { return true, nil }
+	}
+	cands, err := authority.Candidates(check, mbp)
 	if err != nil {
 		return nil, err
 	}
